@@ -10,6 +10,7 @@ import (
 	"golang.org/x/tools/go/ssa"
 
 	"mtverif/internal/core"
+	"mtverif/internal/fde"
 	"mtverif/internal/tree"
 )
 
@@ -878,36 +879,112 @@ var ruleSnapshot = &core.Rule{ID: "R06.6", Min: 6,
 		s.OK("write regions are straight-line", "-", "no call, no loop under the write lock")
 	}}
 
-// findWalk: the recursive method that invokes the detector field.
-func findWalk(c *core.Ctx) *ssa.Function {
+// walkShape describes how the first-match descent is written.
+//
+//	recursive:   walk(n) { for c in n.children { if c.detector(h,l) { return walk(c) } }; tail(n) }
+//	loop:        walk(n) { cur := n; outer: for { for c in cur.children { if c.detector(h,l) { cur = c; continue outer } }; break }; tail(cur) }
+//	loop+helper: walk(n) { cur := n; for { c := scan(cur,h,l); if c == nil { break }; cur = c }; tail(cur) }   scan returns the first accepting child or nil
+type walkShape struct {
+	form     string
+	walk     *ssa.Function // the function detection entries call; it holds the tail (charset, chain clone)
+	scan     *ssa.Function // the function invoking the detector field (== walk except for loop+helper)
+	cur      ssa.Value     // the node the tail works on: walk's receiver (recursive) or the outer loop's phi
+	outer    *ssa.BasicBlock
+	scanCall *ssa.Call // loop+helper: the call of scan in walk
+}
+
+func getWalkShape(c *core.Ctx) *walkShape {
+	if w, ok := c.Memo["walkshape"].(*walkShape); ok {
+		return w
+	}
 	tm := tree.Get(c)
-	var out *ssa.Function
+	cm := getConc(c)
+	var scan *ssa.Function
 	for _, f := range c.SrcFuncs() {
 		for _, ci := range core.Calls(f) {
 			if ci.Common().IsInvoke() || ci.Common().StaticCallee() != nil {
 				continue
 			}
 			if _, fld, ok := core.LoadOfField(ci.Common().Value); ok && fld == tm.FDet {
-				if out != nil && out != f {
-					core.Bail("two functions invoke the detector field: %s and %s", out.Name(), f.Name())
+				if scan != nil && scan != f {
+					core.Bail("two functions invoke the detector field: %s and %s", scan.Name(), f.Name())
 				}
-				out = f
+				scan = f
 			}
 		}
 	}
-	if out == nil {
+	if scan == nil {
 		core.Bail("no function invoking the detector field found (walk)")
 	}
-	rec := false
-	for _, ci := range core.Calls(out) {
-		if ci.Common().StaticCallee() == out {
-			rec = true
+	w := &walkShape{scan: scan}
+	for _, ci := range core.Calls(scan) {
+		if ci.Common().StaticCallee() == scan {
+			w.form, w.walk, w.cur = "recursive", scan, scan.Params[0]
 		}
 	}
-	if !rec {
-		core.Bail("the function invoking detectors (%s) is not a recursive first-match descent; an iterative walk is outside the recognised idiom and the walk rules cannot be set up (undecided, not a violation)", out.Name())
+	// loopPhi: a node-typed phi at a loop header of f whose entry edges are f's receiver and whose back edges are all `next(phi)`
+	loopPhi := func(f *ssa.Function, ph *ssa.Phi, next func(v ssa.Value) bool) bool {
+		h := ph.Block()
+		nBack := 0
+		for k, p := range h.Preds {
+			if h.Dominates(p) {
+				nBack++
+				if !next(ph.Edges[k]) {
+					return false
+				}
+			} else if ph.Edges[k] != ssa.Value(f.Params[0]) {
+				return false
+			}
+		}
+		return nBack > 0
 	}
-	return out
+	if w.form == "" {
+		// loop: the children ranged over belong to a phi of scan
+		for _, b := range scan.Blocks {
+			for _, in := range b.Instrs {
+				base, fld, ok := core.LoadOfField(valueOf(in))
+				if !ok || fld != tm.FChildren {
+					continue
+				}
+				ph, isPhi := base.(*ssa.Phi)
+				if !isPhi || !cm.isNodePtr(ph.Type()) {
+					continue
+				}
+				rs := fde.FindRangeOver(scan, valueOf(in))
+				if len(rs) == 1 && loopPhi(scan, ph, func(v ssa.Value) bool { return v == ssa.Value(rs[0].Load) }) {
+					w.form, w.walk, w.cur, w.outer = "loop", scan, ph, ph.Block()
+				}
+			}
+		}
+	}
+	if w.form == "" && scan.Signature.Results().Len() == 1 && cm.isNodePtr(scan.Signature.Results().At(0).Type()) {
+		// loop+helper: the unique caller keeps the current node in a phi fed by scan's result
+		var callers []*ssa.Call
+		for _, f := range c.AllModFuncs() {
+			for _, ci := range core.Calls(f) {
+				if call, ok := ci.(*ssa.Call); ok && call.Call.StaticCallee() == scan {
+					callers = append(callers, call)
+				}
+			}
+		}
+		if len(callers) == 1 {
+			call := callers[0]
+			g := call.Parent()
+			if ph, ok := call.Call.Args[0].(*ssa.Phi); ok && cm.isNodePtr(ph.Type()) && loopPhi(g, ph, func(v ssa.Value) bool { return v == ssa.Value(call) }) {
+				w.form, w.walk, w.cur, w.outer, w.scanCall = "loop+helper", g, ph, ph.Block(), call
+			}
+		}
+	}
+	if w.form == "" {
+		core.Bail("the function invoking detectors (%s) is neither a recursive first-match descent nor one of the two recognised loop forms of it; the walk rules cannot be set up (undecided, not a violation)", scan.Name())
+	}
+	c.Memo["walkshape"] = w
+	return w
+}
+
+// findWalk: the function detection entries call to run the descent.
+func findWalk(c *core.Ctx) *ssa.Function {
+	return getWalkShape(c).walk
 }
 
 // R06.7 fresh results
